@@ -26,6 +26,7 @@ from pyvc import contracts as C            # noqa: E402
 
 KNOWN = os.path.join(VERIF, "known_findings.txt")
 REPLAY_PY = "/venv/bin/python"
+MAX_REPLAYS = int(os.environ.get("PYVC_MAX_REPLAYS", "4"))
 
 
 def load_known():
@@ -62,6 +63,7 @@ def verify_one(args):
         out["time_solve"] = time.time() - t0
         out.update(paths=r.paths, undecided=r.undecided, errors=r.errors,
                    time_gen=r.time_gen, sha=r.sha, span=r.span,
+                   vacuity=r.vacuity,
                    dropped=r.stats.dropped,
                    lib_used=sorted(r.stats.lib_used),
                    contracts_used=sorted(r.stats.contracts_used),
@@ -149,7 +151,8 @@ def report(a, seed, cons, results, extra, t_start):
     for r in results:
         funcs.append({"file": r["file"], "func": r["func"],
                       "sha256": r.get("sha"), "span": r.get("span"),
-                      "paths": r["paths"], "obligations": len(r["obls"])})
+                      "paths": r["paths"], "obligations": len(r["obls"]),
+                      "requires_satisfiable": r.get("vacuity")})
         for u in r["undecided"]:
             undecided.append(f"{r['func']}: {u}")
         for e in r["errors"]:
@@ -217,6 +220,7 @@ def report(a, seed, cons, results, extra, t_start):
         print(f"KNOWN-FINDING: property={pid} {k['key']} {k['what']}")
     vio_lines = []
     os.makedirs(os.path.join(VERIF, "replays", pid), exist_ok=True)
+    pending = []
     for r, o, ident in violations:
         path = os.path.join(VERIF, "replays", pid, re.sub(
             r"[^A-Za-z0-9_.#@-]", "_", ident) + ".json")
@@ -229,10 +233,21 @@ def report(a, seed, cons, results, extra, t_start):
                "cex": o.get("cex"), "replay": o.get("replay")}
         with open(path, "w") as fh:
             json.dump(rec, fh, indent=1, default=str)
-        reproduced = None
-        if rec["cex"] is not None or rec.get("replay"):
-            reproduced = run_replay(path)
-        rec["replayed_on_real_code"] = reproduced
+        pending.append((path, rec))
+    # replay (at most MAX_REPLAYS, in parallel; the rest are reported with
+    # the verifier output only)
+    from concurrent.futures import ThreadPoolExecutor
+    todo = [(p, r) for p, r in pending
+            if r["cex"] is not None or r.get("replay")][:MAX_REPLAYS]
+    with ThreadPoolExecutor(max_workers=4) as ex:
+        outs = list(ex.map(lambda pr: run_replay(pr[0]), todo))
+    done = {p: o for (p, _r), o in zip(todo, outs)}
+    for path, rec in pending:
+        reproduced = done.get(path)
+        rec["replayed_on_real_code"] = reproduced if reproduced is not None \
+            else ("not replayed: no concrete counterexample" if
+                  rec["cex"] is None and not rec.get("replay") else
+                  f"not replayed: replay cap of {MAX_REPLAYS} per run")
         with open(path, "w") as fh:
             json.dump(rec, fh, indent=1, default=str)
         suffix = "" if reproduced and reproduced.get("reproduced") \
